@@ -386,6 +386,65 @@ def gen_fixshape_history(rng, prog, nops):
     return hist
 
 
+def gen_nested_fix_program(rng, ncons=0):
+    """Nested fixpoint cycles for C20 / C21: an outer head that keeps requesting functions after an inner head
+    (which depends on itself and on the outer head) has completed with a provisional memo; optionally below
+    plain consumers that request further tracked functions after the cycle has completed."""
+    nin = 1
+    inputs = [[[rng.randrange(2), 0], [rng.randrange(2), 0]]]
+    full = 7
+    n = rng.choice([2, 3, 3, 4])
+    o = ncons                 # index offset of the cycle members
+    fns = []
+    for c in range(1, ncons + 1):
+        steps = [("orcall", o + 1 if rng.random() < 0.7 else o + rng.randrange(1, n + 1), full)]
+        for _ in range(rng.choice([1, 2, 3])):
+            g = rng.randrange(c + 1, o + n + 1) if c < ncons else o + rng.randrange(1, n + 1)
+            steps.append(rng.choice([("orcall", g, full), ("orcall", g, full), ("cond", 1, rng.randrange(2) + 1, g, full)]))
+        fns.append({"kind": rng.choice(["plain", "plain", "noeq"]), "init": 0, "fwd": 0, "nodes": chain_body(rng, steps)})
+    for j in range(1, n + 1):
+        steps = [("orc", rng.randrange(full + 1))]
+        if j == 1:
+            steps.append(("orcall", o + 2, rng.choice([full, full, 3, 5, 6])))
+            for _ in range(rng.choice([1, 2, 3])):
+                g = o + rng.randrange(2, n + 1)
+                steps.append(rng.choice([("orcall", g, full), ("cond", 1, rng.randrange(2) + 1, g, full), ("orc", rng.randrange(full + 1))]))
+            steps.append(("orcall", o + rng.randrange(2, n + 1), full))
+        else:
+            steps.append(("orcall", o + j, rng.choice([full, 3, 5, 6])))                 # self: an inner head
+            steps.append(("orcall", o + rng.randrange(1, j), full))                      # and an outer head
+            if rng.random() < 0.5:
+                steps.append(("orcall", o + rng.randrange(1, n + 1), rng.choice([full, 3, 6])))
+        fns.append({"kind": rng.choice(["fix", "fix", "fixjoin"]), "init": 0, "fwd": 0, "nodes": chain_body(rng, steps)})
+    return {"nv": full + 1, "inputs": inputs, "cells": [], "fns": fns, "sfns": [], "ifns": [], "lru_cap": 2}
+
+
+def gen_xthread_program(rng):
+    """Chains of fixpoint functions with back edges (C18/C19): entered by 3-4 threads at different members, so
+    that nested cycles form across threads and lock ownership moves between threads while others wait."""
+    full = 7
+    inputs = [[[rng.randrange(2), 0], [rng.randrange(2), 0]]]
+    n = rng.choice([4, 5, 5, 6])
+    fns = []
+    for j in range(1, n + 1):
+        steps = [("orc", rng.randrange(full + 1))]
+        calls = []
+        if j < n:
+            calls.append(("orcall", j + 1, rng.choice([full, full, 3, 5, 6])))
+        if j >= 2 and (j == n or rng.random() < 0.7):
+            g = rng.randrange(1, j)
+            calls.append(("cond", 1, rng.randrange(2) + 1, g, full) if rng.random() < 0.25 else ("orcall", g, full))
+        if rng.random() < 0.35:
+            calls.append(("orcall", rng.randrange(1, n + 1), rng.choice([full, 3, 6])))
+        if rng.random() < 0.5:
+            rng.shuffle(calls)
+        steps += calls
+        if rng.random() < 0.3:
+            steps.append(("cond", 1, rng.randrange(2) + 1, rng.randrange(1, n + 1), full))
+        fns.append({"kind": rng.choice(["fix", "fix", "fix", "fixjoin"]), "init": 0, "fwd": 0, "nodes": chain_body(rng, steps)})
+    return {"nv": full + 1, "inputs": inputs, "cells": [], "fns": fns, "sfns": [], "ifns": [], "lru_cap": 2}
+
+
 def gen_cycle_program(rng, family):
     if family in ("fix", "fb"):
         for _ in range(40):
@@ -719,6 +778,53 @@ def gen_history(rng, prog, nops, family="core"):
     return hist
 
 
+def gen_persistshare_program(rng):
+    """C26: several memos of the persisted function whose dependency trees share non-persisted helpers
+    (persisted -> non-persisted mid -> non-persisted leaf -> inputs): serialization flattens every memo's
+    dependencies through the helpers separately."""
+    nv = 2
+    nin = 2
+    inputs = [[[rng.randrange(nv), rng.choice([0, 0, 1])], [rng.randrange(nv), rng.choice([0, 0, 1])]] for _ in range(nin)]
+    n_p, n_m, n_l = rng.choice([2, 3, 3]), rng.choice([1, 2]), rng.choice([1, 2])
+    nfn = n_p + n_m + n_l
+    mids = list(range(n_p + 1, n_p + n_m + 1))
+    leaves = list(range(n_p + n_m + 1, nfn + 1))
+    fns = []
+    for j in range(1, nfn + 1):
+        if j <= n_p:
+            kind, callees, ops, depth = "pplain", mids + (leaves if rng.random() < 0.3 else []), ["call", "call", "call", "in"], rng.choice([2, 3])
+        elif j in mids:
+            kind, callees, ops, depth = "pnp", leaves, ["call", "call", "in"], rng.choice([2, 3])
+        else:
+            kind, callees, ops, depth = "pnp", [], ["in"], rng.choice([1, 2])
+        spec = {"nv": nv, "nin": nin, "ncell": 0, "callees": callees, "ops": ops, "p_leaf": 0.1, "exports": {}}
+        tr = Tree()
+        build(rng, spec, depth, tr, {"nh": 0, "ni": 0})
+        fns.append({"kind": kind, "init": 0, "fwd": 0, "nodes": tr.nodes})
+    sf = {"kind": "splain", "init": 0, "nodes": [node("ret", 0)]}
+    return {"nv": nv, "inputs": inputs, "cells": [], "fns": fns, "sfns": [sf, sf, dict(sf, kind="sspec")],
+            "ifns": [{"kind": "iplain", "init": 0, "nodes": [node("ret", 0)]}], "lru_cap": 2, "_np": n_p}
+
+
+def gen_persistshare_history(rng, prog, nops):
+    n_p = prog.pop("_np")
+    nfn = len(prog["fns"])
+    hist = []
+    while len(hist) < nops:
+        order = list(range(1, n_p + 1))
+        rng.shuffle(order)
+        hist += [{"op": "get", "f": f} for f in order]
+        if rng.random() < 0.3:
+            hist.append({"op": "get", "f": rng.randrange(nfn) + 1})
+        hist.append({"op": "persist"})
+        for _ in range(rng.choice([1, 2, 3])):
+            if rng.random() < 0.7:
+                hist.append({"op": "set", "i": rng.randrange(2) + 1, "f": rng.randrange(2) + 1, "v": rng.randrange(2), "d": -1})
+            rng.shuffle(order)
+            hist += [{"op": "get", "f": f} for f in order[:rng.choice([1, 2, n_p])]]
+    return hist
+
+
 def gen_jobs(seed, njobs, family, nops):
     rng = random.Random(seed)
     jobs = []
@@ -732,10 +838,14 @@ def gen_jobs(seed, njobs, family, nops):
         elif family == "accchain":
             prog = gen_accchain_program(rng)
             hist = gen_accchain_history(rng, prog, nops)
+        elif family == "persistshare":
+            prog = gen_persistshare_program(rng)
+            hist = gen_persistshare_history(rng, prog, nops)
         else:
             prog = gen_cycle_program(rng, family) if family in CYCLE_FAMILIES else gen_program(rng, family)
             hist = gen_history(rng, prog, nops, family)
-        jobs.append({"id": n + 1, "prog": prog, "hist": hist, "inject": 0, "seed": seed, "mode": family})
+        jobs.append({"id": n + 1, "prog": prog, "hist": hist, "inject": 0, "seed": seed,
+                     "mode": "persist" if family == "persistshare" else family})
     return jobs
 
 
@@ -748,7 +858,7 @@ def gen_par_jobs(seed, njobs, family, nrounds=3):
     rng = random.Random(seed)
     jobs = []
     base = {"pardag": "dur", "parfix": "fix", "parfb": "fb", "parpcycle": "pcycle", "parintern": "churn",
-            "parstruct": "struct", "parcancel": "dur", "parwrite": "dur", "parwritefix": "fix", "parcancelfix": "fix", "parpanic": "dur", "parmemo": "struct", "paralloc": "struct"}[family]
+            "parstruct": "struct", "parcancel": "dur", "parwrite": "dur", "parwritefix": "fix", "parwritenest": "fix", "parcancelfix": "fix", "parcancelnest": "fix", "parnest3": "fix", "parpanic": "dur", "parmemo": "struct", "paralloc": "struct"}[family]
     for n in range(njobs):
         if family == "paralloc":
             # C24: concurrent creation of inputs, interned values and tracked structs across page boundaries (128 slots)
@@ -808,7 +918,13 @@ def gen_par_jobs(seed, njobs, family, nrounds=3):
             jobs.append({"id": n + 1, "prog": prog, "hist": [], "inject": 0, "seed": seed * 100003 + n, "mode": family,
                          "rounds": rounds, "jitter": rng.choice([0, 0, 20, 100])})
             continue
-        if base in CYCLE_FAMILIES:
+        if family == "parwritenest":
+            prog = gen_nested_fix_program(rng)
+        elif family == "parcancelnest":
+            prog = gen_nested_fix_program(rng, ncons=rng.choice([1, 2]))
+        elif family == "parnest3":
+            prog = gen_xthread_program(rng)
+        elif base in CYCLE_FAMILIES:
             prog = gen_cycle_program(rng, base)
         else:
             prog = gen_program(rng, base, nfn=rng.choice([3, 4, 5, 6]))
@@ -819,35 +935,51 @@ def gen_par_jobs(seed, njobs, family, nrounds=3):
         nfn = len(prog["fns"])
         nin = len(prog["inputs"])
         rounds = []
+        keeprev = False
         for r in range(nrounds):
             pre = []
-            if r > 0:
+            if r > 0 and not (keeprev and rng.random() < 0.8):
                 for _ in range(rng.choice([1, 1, 2])):
                     pre.append({"op": "set", "i": rng.randrange(nin) + 1, "f": rng.randrange(2) + 1,
                                 "v": rng.randrange(2), "d": rng.choice([-1, -1, 0, 2])})
             if rng.random() < 0.3:
                 pre.append({"op": "get", "f": rng.randrange(nfn) + 1})
-            nthreads = rng.choice([2, 2, 3, 4])
+            nthreads = rng.choice([2, 2, 3, 4]) if family != "parnest3" else rng.choice([3, 3, 4])
             threads = []
+            ncons_ = sum(1 for f in prog["fns"] if f["kind"] in ("plain", "noeq")) if family == "parcancelnest" else 0
             for t in range(nthreads):
-                threads.append([{"op": "get", "f": rng.randrange(nfn) + 1} for _ in range(rng.choice([1, 2, 3, 4]))])
+                threads.append([{"op": "get", "f": (rng.randrange(ncons_) + 1) if ncons_ and rng.random() < 0.6 else rng.randrange(nfn) + 1}
+                                for _ in range(rng.choice([1, 2, 3, 4]))])
+            if family == "parnest3":
+                # every thread enters the cycles at a different member
+                entry = rng.sample(range(1, nfn + 1), nthreads)
+                threads = [[{"op": "get", "f": entry[t]}] + [{"op": "get", "f": rng.randrange(nfn) + 1} for _ in range(rng.choice([0, 1, 2]))]
+                           for t in range(nthreads)]
             writer, writer_after, cancels = [], 0, []
-            if family in ("parwrite", "parwritefix") and rng.random() < 0.8:
+            if family in ("parwrite", "parwritefix", "parwritenest") and rng.random() < (0.95 if family == "parwritenest" else 0.8):
                 writer = [{"op": "set", "i": rng.randrange(nin) + 1, "f": rng.randrange(2) + 1, "v": rng.randrange(2),
                            "d": rng.choice([-1, -1, 0, 2])}]
-                if rng.random() < 0.2:
+                c = rng.random()
+                if c < 0.2:
                     writer = [{"op": "synth", "d": rng.choice([0, 1, 2])}]
+                elif (c < 0.5 and family == "parwritefix") or (c < 0.85 and family == "parwritenest"):
+                    # revision-preserving writes (C20): readers are cancelled, the revision stays, and the next
+                    # round re-evaluates in the same revision on top of whatever the cancelled readers left behind
+                    writer = [rng.choice([{"op": "evict"}, {"op": "lru", "k": rng.choice([0, 1, 2])}])]
                 writer_after = rng.choice([0, 3, 8, 15, 25, 40, 60])
+                if family == "parwritenest":
+                    writer_after = rng.choice([4, 8, 12, 16, 20, 25, 30, 40, 50])
                 for th in threads:
                     th += [{"op": "get", "f": rng.randrange(nfn) + 1} for _ in range(rng.choice([2, 4, 6]))]
-            if family in ("parcancel", "parcancelfix"):
-                for _ in range(rng.choice([1, 1, 2])):
+            if family in ("parcancel", "parcancelfix", "parcancelnest"):
+                for _ in range(rng.choice([1, 1, 2]) if family != "parcancelnest" else rng.choice([2, 3])):
                     cancels.append([rng.randrange(nthreads) + 1, rng.choice([1, 4, 8, 15, 25, 40])])
                 for th in threads:
                     th += [{"op": "get", "f": rng.randrange(nfn) + 1} for _ in range(rng.choice([1, 2, 3]))]
+            keeprev = bool(writer) and writer[0]["op"] in ("evict", "lru")
             rounds.append({"pre": pre, "threads": threads, "writer": writer, "cancels": cancels, "writer_after": writer_after})
         jobs.append({"id": n + 1, "prog": prog, "hist": [], "inject": 0, "seed": seed * 100003 + n, "mode": family,
-                     "rounds": rounds, "jitter": rng.choice([0, 50, 200, 500])})
+                     "rounds": rounds, "jitter": rng.choice([0, 50, 200, 500]) if family != "parnest3" else rng.choice([20, 100, 300, 600])})
         if family == "parpanic":
             jobs[-1]["inject"] = rng.choice([3, 5, 8, 12, 17, 23, 30, 40])
     return jobs
